@@ -55,7 +55,9 @@ def make_on_cond(received):
                     else:
                         h.flag("C05.value", f"{hev.name}[{l.name}] did not raise KeyError", "C05.value/keyerror")
             d = v.todict()
-            if list(d.keys()) != got or list(d.values()) != list(v.values()) or [k for k, _ in v.items()] != got:
+            uniq = [e for i, e in enumerate(got) if all(e is not g for g in got[:i])]      # a dict holds a repeated operand once
+            if [k for k in d.keys()] != uniq or any(d[e] is not e._value for e in uniq) or list(v.values()) != [e._value for e in got] \
+                    or [k for k, _ in v.items()] != got:
                 h.flag("C05.value", "todict()/items() disagree with keys()", "C05.value/todict")
         except Exception as e:      # ConditionValue API blew up
             h.problems.append(crash("C05.value", e))
@@ -108,6 +110,7 @@ def run_case(case):
                 raise Violation("C05.instant", f"{c.name} triggered at t={c.occ.trig_now}, predicate first held at t={dec[1]}",
                                 "C05.instant/trigger")
     for k, name in [("same_instant_operands", "same-instant operands"), ("already_processed_operand", "already-processed operand"),
+                    ("duplicate_operand", "same event twice in one tree"),
                     ("partial_value", "value with unprocessed leaves missing")]:
         if h.stats.get(k):
             classes.add(name)
@@ -177,7 +180,8 @@ PROP = Property(
           "conditions mixing two environments must raise ValueError."),
     facets=[Facet("trees", strategy, run_case, quick=2500, thorough=15000,
                   essential=["same-instant operands", "already-processed operand", "operand fails first", "empty list",
-                             "nested", "value with unprocessed leaves missing"]),
+                             "nested", "value with unprocessed leaves missing", "same event twice in one tree"]),
             Facet("foreign_env", foreign_strategy, run_foreign, quick=200, thorough=500)],
-    assumptions=["no event appears twice in one tree (statement silent)", "instants, not steps, decide clause (a)"],
+    assumptions=["instants, not steps, decide clause (a)", "an event may occur several times in one tree; it then counts once per "
+                 "occurrence and appears once per occurrence in the value"],
 )
